@@ -74,7 +74,14 @@ def base_files():
                                   {"type": 0x6474e552, "flags": 4, "vaddr": 0x402000, "data": b"", "offset": 0x1000, "filesz": 32, "memsz": 32, "align": 1},
                                   {"type": elfgen.PT_GNU_STACK, "flags": 6, "vaddr": 0, "data": b"", "filesz": 0, "memsz": 0, "align": 16}],
                        symbols=[("_start", 0x401000, 1)])
-    files = {"gen": gen, "tls": tls}
+    # ... and one whose PT_TLS header points into the MIDDLE of the data segment (no area starts there): a loader that falls back to
+    # allocating a block for it sizes that block from this header's fields
+    tls2 = elfgen.build(0x401000, [{"type": elfgen.PT_LOAD, "flags": 5, "vaddr": 0x401000, "data": code},
+                                   {"type": elfgen.PT_LOAD, "flags": 6, "vaddr": 0x402000, "data": bytes(range(1, 33)), "memsz": 100},
+                                   {"type": elfgen.PT_TLS, "flags": 4, "vaddr": 0x402010, "data": b"", "offset": 0x1000, "filesz": 8, "memsz": 16, "align": 8},
+                                   {"type": elfgen.PT_TLS, "flags": 4, "vaddr": 0x700000, "data": b"", "offset": 0x1000, "filesz": 8, "memsz": 16, "align": 8}],
+                        symbols=[("_start", 0x401000, 1)])
+    files = {"gen": gen, "tls": tls, "tls2": tls2}
     hw = "/repo/testdata/hello_world.bin"
     if os.path.exists(hw):
         files["hello"] = open(hw, "rb").read()
